@@ -76,7 +76,7 @@ Definition batch_ack_ok (s s' : lstate) (a : ack) : Prop :=
     | PAll => names_stored (l_log s') a /\ (l_min_isr s' <= length (l_isr s'))%nat /\ (forall r o, In (r, o) (l_isr s') -> ak_offset a <= o) /\ ak_offset a <= l_hw s'
     | PNone => False
     end
-  | ATooLarge => False
+  | ATooLarge | AEncryption => False
   | AIncorrectOffset => l_log s' = l_log s
   end.
 
@@ -151,7 +151,7 @@ Qed.
 
 Lemma ack_meaning_later s0 s1 s2 a : ack_meaning s0 s1 a -> later s1 s2 -> ack_meaning s0 s2 a.
 Proof.
-  unfold ack_meaning. intros H ((st & Hl) & Hm & Hlen & Hisr & Hhw). destruct (ak_kind a); [|exact I|exact I]. destruct (ak_policy a).
+  unfold ack_meaning. intros H ((st & Hl) & Hm & Hlen & Hisr & Hhw). destruct (ak_kind a); [|exact I..]. destruct (ak_policy a).
   - destruct H as [H1 H2]. split; [rewrite Hl; apply names_stored_grow; exact H1|exact H2].
   - destruct H as (H1 & H2 & H3 & H4). split; [rewrite Hl; apply names_stored_grow; exact H1|]. split; [rewrite Hm, Hlen; exact H2|]. split; [|lia].
     intros r o Hin. destruct (Hisr r o Hin) as (o' & Hin' & Hle). specialize (H3 r o' Hin'). lia.
@@ -167,7 +167,7 @@ Qed.
 
 Lemma ack_meaning_start s0 s1 s2 a : later s0 s1 -> ack_meaning s1 s2 a -> ack_meaning s0 s2 a.
 Proof.
-  unfold ack_meaning. intros ((st & Hl) & _) H. destruct (ak_kind a); [|exact I|exact I]. destruct (ak_policy a); [|exact H|exact H].
+  unfold ack_meaning. intros ((st & Hl) & _) H. destruct (ak_kind a); [|exact I..]. destruct (ak_policy a); [|exact H|exact H].
   destruct H as [H1 H2]. split; [exact H1|]. rewrite Hl, app_length in H2. lia.
 Qed.
 
@@ -185,7 +185,7 @@ Proof.
       * destruct Hor as [->| ->]; [destruct Hx|destruct Hx as [<-|[]]; left; reflexivity].
       * right. apply Hin2. exact Hx.
     + intros a Ha. apply in_app_or in Ha. destruct Ha as [Ha|Ha].
-      * apply (ack_meaning_later s s1 s2 a); [|exact L2]. specialize (Hacks1 a Ha). unfold ack_meaning, batch_ack_ok in *. destruct (ak_kind a); [exact Hacks1|exact I|exact I].
+      * apply (ack_meaning_later s s1 s2 a); [|exact L2]. specialize (Hacks1 a Ha). unfold ack_meaning, batch_ack_ok in *. destruct (ak_kind a); [exact Hacks1|exact I..].
       * apply (ack_meaning_start s s1 s2 a L1). apply Hacks2. exact Ha.
 Qed.
 
@@ -198,15 +198,19 @@ Proof.
     [| | | |injection H as <- <-; split; [intros a []|split; [discriminate|intros a []]]];
     cut (QInv s' /\ (exists st, l_log s' = l_log s ++ st) /\ forall a, In a out -> ack_meaning s s' a);
     try (intros (C1 & C2 & C3); split; [exact C1|split; [intros _; exact C2|exact C3]]).
-  - set (good := filter (fun m => negb (pm_too_large m)) ms) in *. destruct (l_cc s).
+  - set (sealed := filter (fun m => negb (pm_seal_fails m)) ms) in *. set (good := filter (fun m => negb (pm_too_large m)) sealed) in *.
+    assert (Hn : forall (k : ackkind) (l : list pmsg) a, k <> AOk -> In a (map (fun m => mkAck (pm_corr m) (pm_policy m) 0 k) l) -> ack_meaning s s' a).
+    { intros k l a Hk Ha. apply in_map_iff in Ha. destruct Ha as (m & <- & _). unfold ack_meaning. cbn [ak_kind]. destruct k; [contradiction|exact I..]. }
+    destruct (l_cc s).
     + destruct (store_each s good) as [s1 acks] eqn:Es. injection H as <- <-.
       destruct (store_each_spec good s s1 acks HQ Es) as (HQ1 & _ & (st & Hst & _) & Hacks). split; [exact HQ1|]. split; [exists st; exact Hst|].
-      intros a Ha. apply in_app_or in Ha. destruct Ha as [Ha|Ha]; [apply in_map_iff in Ha; destruct Ha as (m & <- & _); exact I|apply Hacks; exact Ha].
+      intros a Ha. apply in_app_or in Ha. destruct Ha as [Ha|Ha]; [eapply (Hn AEncryption); [discriminate|exact Ha]|].
+      apply in_app_or in Ha. destruct Ha as [Ha|Ha]; [eapply (Hn ATooLarge); [discriminate|exact Ha]|apply Hacks; exact Ha].
     + destruct (store_batch s good) as [s1 acks] eqn:Es. injection H as <- <-.
       destruct (store_batch_spec s _ s1 acks HQ Es) as (HQ1 & (st & Hst & _) & Hacks). split; [exact HQ1|]. split; [exists st; exact Hst|].
-      intros a Ha. apply in_app_or in Ha. destruct Ha as [Ha|Ha].
-      * apply in_map_iff in Ha. destruct Ha as (m & <- & _). exact I.
-      * specialize (Hacks a Ha). unfold ack_meaning, batch_ack_ok in *. destruct (ak_kind a); [exact Hacks|exact I|exact I].
+      intros a Ha. apply in_app_or in Ha. destruct Ha as [Ha|Ha]; [eapply (Hn AEncryption); [discriminate|exact Ha]|].
+      apply in_app_or in Ha. destruct Ha as [Ha|Ha]; [eapply (Hn ATooLarge); [discriminate|exact Ha]|].
+      specialize (Hacks a Ha). unfold ack_meaning, batch_ack_ok in *. destruct (ak_kind a); [exact Hacks|exact I..].
   - destruct (existsb (N.eqb r) (l_replicas s) && negb (N.eqb r 0)); [|injection H as <- <-; split; [exact HQ|split; [exists []; rewrite app_nil_r; reflexivity|intros a []]]].
     match type of H with commit ?S1 = _ => set (s1 := S1) in * end. assert (HQ1 : QInv s1) by exact HQ.
     destruct (commit_spec s1 s' out H) as (Hl & Hi & Hm & Hh & Hq & Hout). split; [apply (commit_qinv s1 s' out HQ1 H)|]. split; [exists []; rewrite app_nil_r; exact Hl|].
@@ -221,17 +225,31 @@ Qed.
    are not too large; and a batch refused for its expected offset leaves the log as it is (with
    concurrency control every message is its own batch) *)
 Theorem step_stores_only_accepted s ms s' out : QInv s -> step s (LPublish ms) = (s', out) ->
-  exists st, l_log s' = l_log s ++ st /\ forall m, In m st -> In m ms /\ pm_too_large m = false.
+  exists st, l_log s' = l_log s ++ st /\ forall m, In m st -> In m ms /\ pm_too_large m = false /\ pm_seal_fails m = false.
 Proof.
-  intros HQ. cbn [step]. set (good := filter (fun m => negb (pm_too_large m)) ms).
-  assert (Hgood : forall m, In m good -> In m ms /\ pm_too_large m = false).
-  { intros m Hm. apply filter_In in Hm. destruct Hm as [H1 H2]. split; [exact H1|]. destruct (pm_too_large m); [discriminate|reflexivity]. }
+  intros HQ. cbn [step]. set (sealed := filter (fun m => negb (pm_seal_fails m)) ms). set (good := filter (fun m => negb (pm_too_large m)) sealed).
+  assert (Hgood : forall m, In m good -> In m ms /\ pm_too_large m = false /\ pm_seal_fails m = false).
+  { intros m Hm. apply filter_In in Hm. destruct Hm as [H1 H2]. apply filter_In in H1. destruct H1 as [H0 H1]. split; [exact H0|].
+    split; [destruct (pm_too_large m); [discriminate|reflexivity]|destruct (pm_seal_fails m); [discriminate|reflexivity]]. }
   destruct (l_cc s).
   - destruct (store_each s good) as [s1 acks] eqn:Es. intros [= <- <-].
     destruct (store_each_spec good s s1 acks HQ Es) as (_ & _ & (st & Hst & Hin) & _). exists st. split; [exact Hst|]. intros m Hm. apply Hgood. apply Hin. exact Hm.
   - destruct (store_batch s good) as [s1 acks] eqn:Es. intros [= <- <-].
     destruct (store_batch_spec s _ s1 acks HQ Es) as (_ & (st & Hst & Hor) & _). exists st. split; [exact Hst|]. intros m Hm. apply Hgood.
     destruct Hor as [->| ->]; [destruct Hm|exact Hm].
+Qed.
+
+(* every refused message is told so: a publish step answers each message whose value cannot be
+   sealed with an encryption error and each too-large one with a too-large error *)
+Theorem refused_messages_are_nacked s ms s' out m : step s (LPublish ms) = (s', out) -> In m ms ->
+  (pm_seal_fails m = true -> In (mkAck (pm_corr m) (pm_policy m) 0 AEncryption) out) /\
+  (pm_seal_fails m = false -> pm_too_large m = true -> In (mkAck (pm_corr m) (pm_policy m) 0 ATooLarge) out).
+Proof.
+  cbn [step]. set (sealed := filter (fun m => negb (pm_seal_fails m)) ms). set (good := filter (fun m => negb (pm_too_large m)) sealed).
+  destruct (if l_cc s then store_each s good else store_batch s good) as [s1 acks]. intros [= <- <-] Hin. split.
+  - intros Hs. apply in_or_app. left. apply in_map_iff. exists m. split; [reflexivity|]. apply filter_In. split; assumption.
+  - intros Hs Hl. apply in_or_app. right. apply in_or_app. left. apply in_map_iff. exists m. split; [reflexivity|].
+    apply filter_In. split; [|exact Hl]. apply filter_In. split; [exact Hin|rewrite Hs; reflexivity].
 Qed.
 
 Theorem refused_batch_not_stored s ms s' out a : QInv s -> store_batch s ms = (s', out) -> In a out -> ak_kind a = AIncorrectOffset -> l_log s' = l_log s.
